@@ -10,7 +10,11 @@ pub type MP = MultiPolygon<f64>;
 
 #[inline]
 pub fn orient(a: P, b: P, c: P) -> f64 {
-    orient2d(RC { x: a.0, y: a.1 }, RC { x: b.0, y: b.1 }, RC { x: c.0, y: c.1 })
+    orient2d(
+        RC { x: a.0, y: a.1 },
+        RC { x: b.0, y: b.1 },
+        RC { x: c.0, y: c.1 },
+    )
 }
 
 pub fn c(x: f64, y: f64) -> Coord<f64> {
@@ -127,7 +131,11 @@ pub fn dist_pt_seg(w: P, s: Seg) -> f64 {
     let (a, b) = s;
     let (dx, dy) = (b.0 - a.0, b.1 - a.1);
     let l2 = dx * dx + dy * dy;
-    let t = if l2 == 0.0 { 0.0 } else { (((w.0 - a.0) * dx + (w.1 - a.1) * dy) / l2).clamp(0.0, 1.0) };
+    let t = if l2 == 0.0 {
+        0.0
+    } else {
+        (((w.0 - a.0) * dx + (w.1 - a.1) * dy) / l2).clamp(0.0, 1.0)
+    };
     let (px, py) = (a.0 + t * dx, a.1 + t * dy);
     ((w.0 - px).powi(2) + (w.1 - py).powi(2)).sqrt()
 }
@@ -155,7 +163,8 @@ pub fn collinear(s: Seg, t: Seg) -> bool {
 pub fn proper_cross(s: Seg, t: Seg) -> bool {
     let (d1, d2) = (orient(s.0, s.1, t.0), orient(s.0, s.1, t.1));
     let (d3, d4) = (orient(t.0, t.1, s.0), orient(t.0, t.1, s.1));
-    ((d1 > 0.0 && d2 < 0.0) || (d1 < 0.0 && d2 > 0.0)) && ((d3 > 0.0 && d4 < 0.0) || (d3 < 0.0 && d4 > 0.0))
+    ((d1 > 0.0 && d2 < 0.0) || (d1 < 0.0 && d2 > 0.0))
+        && ((d3 > 0.0 && d4 < 0.0) || (d3 < 0.0 && d4 > 0.0))
 }
 
 /// exact: the segments are collinear and share more than one point
@@ -239,7 +248,12 @@ pub fn hex_bits(mp: &MP) -> serde_json::Value {
                 .chain(p.interiors().iter())
                 .map(|r| {
                     r.0.iter()
-                        .map(|c| json!([format!("{:016x}", c.x.to_bits()), format!("{:016x}", c.y.to_bits())]))
+                        .map(|c| {
+                            json!([
+                                format!("{:016x}", c.x.to_bits()),
+                                format!("{:016x}", c.y.to_bits())
+                            ])
+                        })
                         .collect::<Vec<_>>()
                 })
                 .collect::<Vec<_>>()
@@ -256,7 +270,10 @@ pub fn from_hex_bits(v: &serde_json::Value) -> Option<MP> {
             for q in r.as_array()? {
                 let x = u64::from_str_radix(q.get(0)?.as_str()?, 16).ok()?;
                 let y = u64::from_str_radix(q.get(1)?.as_str()?, 16).ok()?;
-                pts.push(Coord { x: f64::from_bits(x), y: f64::from_bits(y) });
+                pts.push(Coord {
+                    x: f64::from_bits(x),
+                    y: f64::from_bits(y),
+                });
             }
             rings.push(LineString(pts));
         }
